@@ -36,7 +36,7 @@ ASSUMPTIONS = [
     "entries whose exact normalised value is within 1e-12 of lower_rel/upper_rel (other than exactly on the edges "
     "0, 0.5, 1) are not judged; (n, fraction) pairs whose exact product is a non-zero integer while the fraction is "
     "not a binary fraction (5*0.4, 10*(1-0.9)) are inadmissible: 'rounded down' would be decided by the last bit",
-    "numeric range: positive data with |rho*x| <= 300 and |p*ln x| <= 300 (no overflow of the exp / power sums); "
+    "numeric range: positive data whose LARGEST term exp(rho*x_i) resp. x_i^p over the selected entries lies in e^[-300, 300] (the sum neither overflows nor underflows to zero; smaller terms may vanish, so a soft minimum of widely spread data is inside the range); "
     "'exactly' for the undamped scaling means the ALG class 1e-9*scale+1e-12 ((t/a)*a is not bitwise t)",
     "AggActiveSet.__init__ asserts upper > lower for both pairs: other pairs are not generated",
 ]
@@ -441,6 +441,9 @@ def exec_agg(pym, case):
                 if st == 'inadmissible':
                     obs.append('inadmissible:' + xs)
                     continue
+                if st != 'bad' and not agg.in_range(cls, prm, xs):       # the sums run over the selected entries
+                    obs.append('inadmissible:outside_numeric_range')
+                    continue
                 states += 1
                 trans += 1
                 if st == 'bad':
@@ -504,6 +507,8 @@ def run_history(pym, case, seq, twin):
             return k, None, 'inadmissible', xs
         if st == 'bad':
             return k + 1, xs, 'bad', None
+        if not agg.in_range(cls, prm, xs):
+            return k, None, 'range', 'outside_numeric_range'
         approx = unscaled_value(twin, xs)
         true = agg.true_extreme(xs, which)
         s_prev = model.s
